@@ -37,22 +37,42 @@ func (vc *FuncVC) reset() {
 	vc.assumedUsed = map[string]bool{}
 	vc.writesSeen = map[string]bool{}
 	vc.usedContracts = map[string]bool{}
+	vc.subSeen = map[string]bool{}
 	vc.counters = map[string]int{}
 	vc.lastCallbacks = nil
 	vc.notes = nil
 }
 
 func (vc *FuncVC) analyzeCFG() {
-	fn := vc.fn
-	vc.loops = map[*ssa.BasicBlock]*loopInfo{}
+	vc.frames = map[*ssa.Function]*frame{}
+	vc.cur = vc.frameOf(vc.fn, vc.c, false)
+}
+
+// frameOf analyses fn once (loops, call/return ordinals, defer sites).
+func (vc *FuncVC) frameOf(fn *ssa.Function, c *Contract, inlined bool) *frame {
+	if f, ok := vc.frames[fn]; ok {
+		return f
+	}
+	fr := &frame{fn: fn, c: c, inlined: inlined}
+	if inlined {
+		fr.prefix = fmt.Sprintf("inline:%s/", fnKey(fn))
+	}
+	vc.frames[fn] = fr
+	vc.analyzeFrame(fr)
+	return fr
+}
+
+func (vc *FuncVC) analyzeFrame(fr *frame) {
+	fn := fr.fn
+	fr.loops = map[*ssa.BasicBlock]*loopInfo{}
 	// back edges
 	for _, b := range fn.Blocks {
 		for _, s := range b.Succs {
 			if s.Dominates(b) {
-				li := vc.loops[s]
+				li := fr.loops[s]
 				if li == nil {
 					li = &loopInfo{header: s, blocks: map[*ssa.BasicBlock]bool{s: true}, writes: map[string]bool{}}
-					vc.loops[s] = li
+					fr.loops[s] = li
 				}
 				li.backs = append(li.backs, b)
 				// natural loop body
@@ -72,15 +92,15 @@ func (vc *FuncVC) analyzeCFG() {
 		}
 	}
 	var hs []*ssa.BasicBlock
-	for h := range vc.loops {
+	for h := range fr.loops {
 		hs = append(hs, h)
 	}
 	sort.Slice(hs, func(i, j int) bool { return hs[i].Index < hs[j].Index })
 	for i, h := range hs {
-		li := vc.loops[h]
+		li := fr.loops[h]
 		li.ord = i + 1
-		if vc.c != nil {
-			li.spec = vc.c.Loops[li.ord]
+		if fr.c != nil {
+			li.spec = fr.c.Loops[li.ord]
 		}
 		for _, in := range h.Instrs {
 			if in.Pos().IsValid() {
@@ -101,11 +121,11 @@ func (vc *FuncVC) analyzeCFG() {
 		}
 	}
 	// call ordinals per callee key, return ordinals, defer sites
-	vc.callOrd = map[ssa.Instruction]int{}
-	vc.callKeyOf = map[ssa.Instruction]string{}
-	vc.retOrd = map[*ssa.BasicBlock]int{}
-	vc.deferInLoop = map[*ssa.Defer]bool{}
-	vc.deferSites = nil
+	fr.callOrd = map[ssa.Instruction]int{}
+	fr.callKeyOf = map[ssa.Instruction]string{}
+	fr.retOrd = map[*ssa.BasicBlock]int{}
+	fr.deferInLoop = map[*ssa.Defer]bool{}
+	fr.deferSites = nil
 	type site struct {
 		in  ssa.Instruction
 		key string
@@ -126,15 +146,15 @@ func (vc *FuncVC) analyzeCFG() {
 				sites = append(sites, site{in, vc.calleeName(&x.Call), x.Pos(), seq})
 			case *ssa.Defer:
 				sites = append(sites, site{in, vc.calleeName(&x.Call), x.Pos(), seq})
-				vc.deferSites = append(vc.deferSites, x)
-				for _, li := range vc.loops {
+				fr.deferSites = append(fr.deferSites, x)
+				for _, li := range fr.loops {
 					if li.blocks[b] {
-						vc.deferInLoop[x] = true
+						fr.deferInLoop[x] = true
 					}
 				}
 			case *ssa.Return:
 				nret++
-				vc.retOrd[b] = nret
+				fr.retOrd[b] = nret
 			}
 		}
 	}
@@ -147,8 +167,8 @@ func (vc *FuncVC) analyzeCFG() {
 	cnt := map[string]int{}
 	for _, s := range sites {
 		cnt[s.key]++
-		vc.callOrd[s.in] = cnt[s.key]
-		vc.callKeyOf[s.in] = s.key
+		fr.callOrd[s.in] = cnt[s.key]
+		fr.callKeyOf[s.in] = s.key
 	}
 }
 
@@ -201,18 +221,21 @@ func shortFn(k string) string { return k }
 
 func (vc *FuncVC) run() {
 	vc.analyzeCFG()
-	// pass 1: dry run to learn what each loop writes
-	if len(vc.loops) > 0 {
-		vc.reset()
-		vc.dry = true
-		vc.execute()
-		vc.dry = false
-	}
+	// pass 1: dry run to learn what each loop writes (also discovers the frames of inlined callees)
+	vc.reset()
+	vc.dry = true
+	vc.execute()
+	vc.dry = false
 	vc.reset()
 	vc.execute()
 }
 
 type edge struct{ from, to int }
+
+type edgeF struct {
+	fn       *ssa.Function
+	from, to int
+}
 
 func (vc *FuncVC) execute() {
 	fn := vc.fn
@@ -262,6 +285,11 @@ func (vc *FuncVC) execute() {
 	vc.axioms(s)
 	vc.cover("entry", fn.Pos(), tTrue)
 
+	vc.runFrame(vc.cur, s)
+}
+
+// runFrame executes the blocks of the current frame's function from state s.
+func (vc *FuncVC) runFrame(fr *frame, s *State) {
 	// block order: reverse postorder over forward edges
 	order := vc.rpo()
 	in := map[edge][]*State{}
@@ -272,7 +300,7 @@ func (vc *FuncVC) execute() {
 		} else {
 			var ins []*State
 			for _, p := range b.Preds {
-				if li := vc.loops[b]; li != nil && li.blocks[p] && b.Dominates(p) {
+				if li := vc.cur.loops[b]; li != nil && li.blocks[p] && b.Dominates(p) {
 					continue // back edge
 				}
 				ins = append(ins, in[edge{p.Index, b.Index}]...)
@@ -283,7 +311,7 @@ func (vc *FuncVC) execute() {
 			st = vc.merge(ins, fmt.Sprintf("B%d", b.Index))
 		}
 		vc.curBlock = b
-		if li := vc.loops[b]; li != nil {
+		if li := vc.cur.loops[b]; li != nil {
 			vc.loopHead(li, st)
 		}
 		outs := vc.execBlock(b, st)
@@ -291,12 +319,12 @@ func (vc *FuncVC) execute() {
 			if i >= len(outs) || outs[i] == nil {
 				continue
 			}
-			if li := vc.loops[succ]; li != nil && li.blocks[b] && succ.Dominates(b) {
+			if li := vc.cur.loops[succ]; li != nil && li.blocks[b] && succ.Dominates(b) {
 				vc.loopBack(li, outs[i], b)
 				continue
 			}
 			in[edge{b.Index, succ.Index}] = append(in[edge{b.Index, succ.Index}], outs[i])
-			vc.edgePC[edge{b.Index, succ.Index}] = outs[i].pc
+			vc.edgePC[edgeF{fr.fn, b.Index, succ.Index}] = outs[i].pc
 		}
 	}
 }
@@ -318,7 +346,7 @@ func (vc *FuncVC) rpo() []*ssa.BasicBlock {
 		}
 		post = append(post, b)
 	}
-	dfs(vc.fn.Blocks[0])
+	dfs(vc.cur.fn.Blocks[0])
 	for i, j := 0, len(post)-1; i < j; i, j = i+1, j-1 {
 		post[i], post[j] = post[j], post[i]
 	}
@@ -382,6 +410,15 @@ func (vc *FuncVC) merge(ins []*State, hint string) *State {
 		out.vars[k] = m
 	}
 	return out
+}
+
+func sortedKeysCW(m map[string][]ssa.Value) []string {
+	var ks []string
+	for k := range m {
+		ks = append(ks, k)
+	}
+	sort.Strings(ks)
+	return ks
 }
 
 func sortedKeysB(m map[string]bool) []string {
@@ -452,6 +489,42 @@ func (vc *FuncVC) loopHead(li *loopInfo, s *State) {
 			vc.localTypeFacts(s, k, nv)
 		}
 	}
+	// cells of captured locals written in the loop: havoc exactly those cells
+	if !vc.dry {
+		for _, k := range sortedKeysCW(li.cellWrites) {
+			if li.writes[k] {
+				continue // the whole heap was havocked already
+			}
+			srt, _ := vc.sortOfKey(k)
+			cur := vc.get(s, k, srt)
+			_, vs := splitArraySort(srt)
+			seen := map[ssa.Value]bool{}
+			for _, pv := range li.cellWrites[k] {
+				if seen[pv] {
+					continue
+				}
+				seen[pv] = true
+				ref, ok := vc.regs[pv]
+				if !ok {
+					continue // allocated inside the loop: fresh each iteration
+				}
+				nv := vc.freshConst(fmt.Sprintf("h%d_cell", li.ord), vs)
+				cur = app(srt, "store", cur, ref, nv)
+			}
+			s.vars[k] = vc.nameTerm(cur, k)
+		}
+	}
+	// range-over-slice loops: the hidden index stays >= -1 (needed for the bounds of the element access)
+	if ri := vc.rangeIndexAlloc(li); ri != nil && !vc.dry {
+		if ad, ok := vc.addrs[ri]; ok {
+			v := vc.loadAddr(s, ad)
+			vc.assume(s.pc, app("Bool", ">=", v, intLit(-1)))
+			li.autoTerm = true
+		}
+	}
+	if li.header.Comment == "rangeiter.loop" {
+		li.autoTerm = true
+	}
 	// the loop head gets its own path condition name
 	pc := vc.freshConst(fmt.Sprintf("pc_%s", name), "Bool")
 	vc.emit("(assert (= %s %s))", pc.S, s.pc.S)
@@ -476,9 +549,80 @@ func (vc *FuncVC) loopHead(li *loopInfo, s *State) {
 			vc.emit("(assert (= %s %s))", snap.S, d.S)
 			li.decSnap = &snap
 		}
-	} else if vc.prop == "C11" && !vc.dry {
-		vc.notes = append(vc.notes, fmt.Sprintf("loop %d has no decreases clause", li.ord))
 	}
+	// default termination measure for iterator loops (for iter := p.Begin(); iter != p.End(); iter = iter.Next())
+	if vc.prop == "C11" && !vc.dry && li.decSnap == nil && !li.autoTerm {
+		if it := vc.iteratorAlloc(li); it != nil {
+			if ad, ok := vc.addrs[it]; ok {
+				v := vc.loadAddr(s, ad)
+				vc.eng.needFun(vc, "ipos", []string{"Iface"}, "Int")
+				vc.eng.needFun(vc, "ilen", []string{"Iface"}, "Int")
+				snap := vc.freshConst(fmt.Sprintf("dec%d", li.ord), "Int")
+				vc.emit("(assert (= %s (ite (= %s (mkI 0 0)) 0 (- (ilen %s) (ipos %s)))))", snap.S, v.S, v.S, v.S)
+				li.decSnap = &snap
+				li.autoIter = it
+			}
+		}
+	}
+}
+
+func (vc *FuncVC) rangeIndexAlloc(li *loopInfo) *ssa.Alloc {
+	if li.header.Comment != "rangeindex.loop" {
+		return nil
+	}
+	for _, in := range li.header.Instrs {
+		if st, ok := in.(*ssa.Store); ok {
+			if a, ok := st.Addr.(*ssa.Alloc); ok && a.Comment == "rangeindex" {
+				return a
+			}
+		}
+	}
+	return nil
+}
+
+// iteratorAlloc finds the loop variable of an iterator loop: a local of interface type with a
+// Next method that is assigned in the loop (outside its inner loops).
+func (vc *FuncVC) iteratorAlloc(li *loopInfo) *ssa.Alloc {
+	inner := map[*ssa.BasicBlock]bool{}
+	for _, other := range vc.cur.loops {
+		if other != li && li.blocks[other.header] {
+			for b := range other.blocks {
+				inner[b] = true
+			}
+		}
+	}
+	var found *ssa.Alloc
+	for b := range li.blocks {
+		if inner[b] {
+			continue
+		}
+		for _, in := range b.Instrs {
+			st, ok := in.(*ssa.Store)
+			if !ok {
+				continue
+			}
+			a, ok := st.Addr.(*ssa.Alloc)
+			if !ok || a.Heap {
+				continue
+			}
+			et := a.Type().Underlying().(*types.Pointer).Elem()
+			if _, isI := et.Underlying().(*types.Interface); !isI {
+				continue
+			}
+			ms := types.NewMethodSet(et)
+			if ms.Lookup(nil, "Next") == nil {
+				continue
+			}
+			// the stored value must come from a Next() call
+			if c, ok := st.Val.(*ssa.Call); ok && c.Call.IsInvoke() && c.Call.Method.Name() == "Next" {
+				if found != nil && found != a {
+					return nil
+				}
+				found = a
+			}
+		}
+	}
+	return found
 }
 
 func clauseName(cl Clause, i int) string {
@@ -536,7 +680,20 @@ func (vc *FuncVC) loopBack(li *loopInfo, s *State, from *ssa.BasicBlock) {
 			vc.oblige("dec", fmt.Sprintf("%s/dec", name), li.spec.Dec.Src, li.pos, s.pc, f)
 		}
 	}
-	if vc.prop == "C11" && (li.spec == nil || li.spec.Dec == nil || !li.spec.Dec.active(vc.prop)) {
+	if ri := vc.rangeIndexAlloc(li); ri != nil {
+		if ad, ok := vc.addrs[ri]; ok {
+			v := vc.loadAddr(s, ad)
+			vc.oblige("inv.keep", fmt.Sprintf("%s/inv.keep:rangeindex", name), "rangeindex >= -1", li.pos, s.pc, app("Bool", ">=", v, intLit(-1)))
+		}
+	}
+	if vc.prop == "C11" && li.autoIter != nil && li.decSnap != nil {
+		if ad, ok := vc.addrs[li.autoIter]; ok {
+			v := vc.loadAddr(s, ad)
+			d := T("Int", fmt.Sprintf("(ite (= %s (mkI 0 0)) 0 (- (ilen %s) (ipos %s)))", v.S, v.S, v.S))
+			f := and(app("Bool", "<", d, *li.decSnap), app("Bool", ">=", *li.decSnap, intLit(0)))
+			vc.oblige("dec", fmt.Sprintf("%s/dec", name), "iterator measure: iter == nil ? 0 : ilen(iter) - ipos(iter)", li.pos, s.pc, f)
+		}
+	} else if vc.prop == "C11" && !li.autoTerm && (li.spec == nil || li.spec.Dec == nil || !li.spec.Dec.active(vc.prop)) {
 		vc.oblige("dec", fmt.Sprintf("%s/dec", name), "(no decreases clause given)", li.pos, s.pc, tFalse)
 	}
 }
@@ -546,7 +703,7 @@ func (vc *FuncVC) loopBack(li *loopInfo, s *State, from *ssa.BasicBlock) {
 
 func (vc *FuncVC) inLoops(b *ssa.BasicBlock) []*loopInfo {
 	var out []*loopInfo
-	for _, li := range vc.loops {
+	for _, li := range vc.cur.loops {
 		if li.blocks[b] {
 			out = append(out, li)
 		}
@@ -558,6 +715,19 @@ func (vc *FuncVC) noteWrite(key string) {
 	if vc.dry && vc.curBlock != nil {
 		for _, li := range vc.inLoops(vc.curBlock) {
 			li.writes[key] = true
+		}
+		vc.noteOuter(key)
+	}
+}
+
+// noteOuter: while a callee is being inlined, its writes also belong to the loops of the
+// callers that contain the call site.
+func (vc *FuncVC) noteOuter(key string) {
+	for _, o := range vc.inlineOuter {
+		for _, li := range o.fr.loops {
+			if li.blocks[o.b] {
+				li.writes[key] = true
+			}
 		}
 	}
 }
@@ -687,7 +857,34 @@ func (vc *FuncVC) storePtr(s *State, p ssa.Value, v Term, pos token.Pos) {
 		hs := "(Array Int " + sort + ")"
 		h := vc.get(s, "C:"+sort, hs)
 		vc.set(s, "C:"+sort, app(hs, "store", h, ref, v))
-		vc.noteWrite("C:" + sort)
+		vc.noteCellWrite("C:"+sort, p)
+	}
+}
+
+// noteCellWrite records a write to a cell heap; writes through the address of a captured local
+// (a heap Alloc of this function or a free variable) are remembered precisely so that a loop
+// havocs only those cells.
+func (vc *FuncVC) noteCellWrite(key string, p ssa.Value) {
+	if !vc.dry || vc.curBlock == nil {
+		return
+	}
+	precise := false
+	switch x := p.(type) {
+	case *ssa.Alloc:
+		precise = x.Heap
+	case *ssa.FreeVar:
+		precise = true
+	}
+	vc.noteOuter(key)
+	for _, li := range vc.inLoops(vc.curBlock) {
+		if precise {
+			if li.cellWrites == nil {
+				li.cellWrites = map[string][]ssa.Value{}
+			}
+			li.cellWrites[key] = append(li.cellWrites[key], p)
+		} else {
+			li.writes[key] = true
+		}
 	}
 }
 
@@ -770,7 +967,7 @@ func (vc *FuncVC) execInstr(s *State, in ssa.Instruction) {
 			return
 		}
 		if !x.Heap {
-			key := fmt.Sprintf("L:%s#%d", x.Comment, vc.allocID(x))
+			key := fmt.Sprintf("L:%s%s#%d", vc.cur.prefix, x.Comment, vc.allocID(x))
 			z := vc.ss.zero(vc.ss.sortOf(et))
 			z.GoT = et
 			vc.set(s, key, z)
@@ -794,7 +991,7 @@ func (vc *FuncVC) execInstr(s *State, in ssa.Instruction) {
 			hs := "(Array Int " + sort + ")"
 			h := vc.get(s, "C:"+sort, hs)
 			vc.set(s, "C:"+sort, app(hs, "store", h, r, z))
-			vc.noteWrite("C:" + sort)
+			vc.noteCellWrite("C:"+sort, x)
 		}
 	case *ssa.Store:
 		v := vc.val(s, x.Val)
@@ -959,7 +1156,7 @@ func (vc *FuncVC) execInstr(s *State, in ssa.Instruction) {
 			vc.outsideSubset("range over %s", x.X.Type())
 			return
 		}
-		key := fmt.Sprintf("IT:%d", vc.rangeID(x))
+		key := fmt.Sprintf("IT:%s%d", vc.cur.prefix, vc.rangeID(x))
 		kt := x.X.Type().Underlying().(*types.Map).Key()
 		vc.set(s, key, vc.ss.zero("(Array "+vc.ss.sortOf(kt)+" Bool)"))
 		vc.noteWrite(key)
@@ -974,7 +1171,7 @@ func (vc *FuncVC) execInstr(s *State, in ssa.Instruction) {
 }
 
 func (vc *FuncVC) allocID(a *ssa.Alloc) int {
-	for i, l := range vc.fn.Locals {
+	for i, l := range vc.cur.fn.Locals {
 		if l == a {
 			return i
 		}
@@ -984,7 +1181,7 @@ func (vc *FuncVC) allocID(a *ssa.Alloc) int {
 
 func (vc *FuncVC) rangeID(r *ssa.Range) int {
 	n := 0
-	for _, b := range vc.fn.Blocks {
+	for _, b := range vc.cur.fn.Blocks {
 		for _, in := range b.Instrs {
 			if rr, ok := in.(*ssa.Range); ok {
 				n++
@@ -1038,7 +1235,7 @@ func (vc *FuncVC) next(s *State, x *ssa.Next) {
 	}
 	rg := x.Iter.(*ssa.Range)
 	mt := rg.X.Type().Underlying().(*types.Map)
-	key := fmt.Sprintf("IT:%d", vc.rangeID(rg))
+	key := fmt.Sprintf("IT:%s%d", vc.cur.prefix, vc.rangeID(rg))
 	ks := vc.ss.sortOf(mt.Key())
 	es := vc.ss.sortOf(mt.Elem())
 	visited := vc.get(s, key, "(Array "+ks+" Bool)")
@@ -1069,7 +1266,7 @@ func (vc *FuncVC) phi(s *State, x *ssa.Phi) {
 	first := true
 	for i := len(b.Preds) - 1; i >= 0; i-- {
 		p := b.Preds[i]
-		ec, ok := vc.edgePC[edge{p.Index, b.Index}]
+		ec, ok := vc.edgePC[edgeF{b.Parent(), p.Index, b.Index}]
 		if !ok {
 			continue
 		}
@@ -1272,10 +1469,14 @@ func (vc *FuncVC) implementsTerm(v Term, st types.Type, it types.Type) Term {
 // returns
 
 func (vc *FuncVC) doReturn(s *State, r *ssa.Return, b *ssa.BasicBlock) {
-	n := vc.retOrd[b]
+	n := vc.cur.retOrd[b]
 	var res []Term
 	for _, v := range r.Results {
 		res = append(res, vc.val(s, v))
+	}
+	if vc.cur.inlined {
+		vc.cur.rets = append(vc.cur.rets, retState{s: s, res: res})
+		return
 	}
 	vc.cover(fmt.Sprintf("return#%d", n), r.Pos(), s.pc)
 	if vc.c == nil {
